@@ -138,3 +138,63 @@ End WSP.
 (* the quorum used by the code: total*2/3 + 1 is strictly more than two thirds *)
 Lemma quorum_gt_two_thirds (t : N) : 3 * (t * 2 / 3 + 1) > 2 * t.
 Proof. lia. Qed.
+
+(* ---------- double sums (for the pigeonhole of "some subject is never decided no") ---------- *)
+Fixpoint wsf (i : nat) (ws : list N) (g : nat -> N) : N :=
+  match ws with
+  | [] => 0
+  | w :: t => w * g i + wsf (S i) t g
+  end.
+
+Lemma wsl_wsf ws : forall i P, wsl i ws P = wsf i ws (fun v => if P v then 1 else 0).
+Proof. induction ws as [|w t IH]; intros i P; cbn [wsl wsf]; [reflexivity|]. rewrite IH. destruct (P i); lia. Qed.
+
+Lemma wsf_add ws : forall i g h, wsf i ws (fun v => g v + h v) = wsf i ws g + wsf i ws h.
+Proof. induction ws as [|w t IH]; intros i g h; cbn [wsf]; [reflexivity|]. rewrite IH. lia. Qed.
+
+Lemma wsf_scale ws c : forall i g, wsf i ws (fun v => c * g v) = c * wsf i ws g.
+Proof. induction ws as [|w t IH]; intros i g; cbn [wsf]; [lia|]. rewrite IH. lia. Qed.
+
+Lemma wsf_zero ws : forall i, wsf i ws (fun _ => 0) = 0.
+Proof. induction ws as [|w t IH]; intros i; cbn [wsf]; [reflexivity|]. rewrite IH. lia. Qed.
+
+Lemma wsf_ext ws : forall i g h, (forall v, (i <= v < i + length ws)%nat -> g v = h v) -> wsf i ws g = wsf i ws h.
+Proof.
+  induction ws as [|w t IH]; intros i g h H; cbn [wsf]; [reflexivity|].
+  rewrite (H i) by (cbn [length]; lia). f_equal. apply IH. intros v Hv. apply H. cbn [length]. lia.
+Qed.
+
+Lemma wsf_le ws : forall i g h, (forall v, (i <= v < i + length ws)%nat -> g v <= h v) -> wsf i ws g <= wsf i ws h.
+Proof.
+  induction ws as [|w t IH]; intros i g h H; cbn [wsf]; [lia|].
+  assert (g i <= h i) by (apply H; cbn [length]; lia).
+  assert (wsf (S i) t g <= wsf (S i) t h) by (apply IH; intros v Hv; apply H; cbn [length]; lia). nia.
+Qed.
+
+Lemma wsf_fubini ws1 : forall ws2 i j (m : nat -> nat -> N),
+  wsf i ws1 (fun u => wsf j ws2 (fun v => m u v)) = wsf j ws2 (fun v => wsf i ws1 (fun u => m u v)).
+Proof.
+  induction ws1 as [|w t IH]; intros ws2 i j m; cbn [wsf].
+  - rewrite wsf_zero. reflexivity.
+  - rewrite IH. rewrite <- wsf_scale. rewrite <- wsf_add. reflexivity.
+Qed.
+
+(* weighted pigeonhole: if the weighted sum of g is at least c * total, some index reaches c (scaled) *)
+Lemma wsf_pigeon ws g (c : N) : 0 < wsf 0 ws (fun _ => 1) -> c * wsf 0 ws (fun _ => 1) <= wsf 0 ws g ->
+  exists v, (v < length ws)%nat /\ c <= g v.
+Proof.
+  intros Hn H.
+  destruct (existsb (fun v => c <=? g v) (seq 0 (length ws))) eqn:E.
+  - apply existsb_exists in E as [v [Hv Hc]]. apply in_seq in Hv. exists v. split; [lia|apply N.leb_le; exact Hc].
+  - exfalso.
+    assert (Hall : forall v, (v < length ws)%nat -> g v + 1 <= c).
+    { intros v Hv. destruct (c <=? g v) eqn:Ec; [|apply N.leb_gt in Ec; lia].
+      assert (existsb (fun v => c <=? g v) (seq 0 (length ws)) = true); [|congruence].
+      apply existsb_exists. exists v. split; [apply in_seq; lia|exact Ec]. }
+    assert (H1 : wsf 0 ws (fun v => g v + 1) <= wsf 0 ws (fun _ => c)).
+    { apply wsf_le. intros v Hv. apply Hall. lia. }
+    rewrite wsf_add in H1.
+    assert (H2 : wsf 0 ws (fun _ => c) = c * wsf 0 ws (fun _ => 1)).
+    { rewrite <- wsf_scale. apply wsf_ext. intros; lia. }
+    lia.
+Qed.
